@@ -749,9 +749,9 @@ func c14randOrder(r *rng, recs []c14rec) []int {
 func c14(c *ctx) {
 	o, r := c.o, c.r
 	// (a) pipe scripts
-	nScripts, nOps, nConc := 500, 40, 20
+	nScripts, nOps, nConc := 3000, 40, 60
 	if c.thorough() {
-		nScripts, nOps, nConc = 6000, 60, 300
+		nScripts, nOps, nConc = 30000, 60, 600
 	}
 	for i := 0; i < nScripts; i++ {
 		c14pipeScript(c, r, nOps/2+r.intn(nOps), "pipe", i)
@@ -816,9 +816,9 @@ func c14(c *ctx) {
 
 	// (b2) larger seeded cases: sizes over the whole range incl. the boundary and oversize, sequential and
 	// concurrent senders, random FIFO-respecting arrival orders, some records dropped, a stream closed mid-way
-	nCases := 60
+	nCases := 300
 	if c.thorough() {
-		nCases = 900
+		nCases = 4000
 	}
 	for i := 0; i < nCases; i++ {
 		sp := c14caseSpec{method: byte(i % 4), limit: []int{0, 16401, 16401}[r.intn(3)], nconn: 1 + r.intn(4), nstreams: 1 + r.intn(4),
@@ -832,7 +832,7 @@ func c14(c *ctx) {
 		if !sp.conc && r.intn(5) == 0 && len(sp.sizes[0]) > 1 {
 			sp.closeAt = 1 + r.intn(len(sp.sizes[0])-1)
 		}
-		emit := i < 24 || c.thorough() && i < 120
+		emit := i < 60 || c.thorough() && i < 400
 		recs, accepted, _, ok := c14sender(c, r, sp, key, emit && !sp.conc)
 		if !ok {
 			return
